@@ -5,6 +5,18 @@ BASE = json.load(open('/root/.vp/BASELINE.json'))['cmd']
 ALL = ["C%02d" % i for i in range(1, 21)]
 # id -> (engine, technique, level text, level note, design ref)
 CHECKS = {
+ "C01": ("tcp2", "deviation-bounded exhaustive search over event schedules of two real TCP endpoints",
+         "Two real smoltcp interfaces with one TCP socket each are joined by a network the explorer owns; every execution with at most k deviations (drop, duplicate, reorder, corrupt, timer-first/delay, reader stall) from the fault-free schedule is run to completion (k<=4 on the smallest configuration, k<=3 on twelve others in the quick tier; one more level in the thorough tier), over buffer sizes 8..128 KiB (window scaling), MTU 80..1500, none/Reno/CUBIC, Nagle/delayed-ACK on/off, IPv4/IPv6 and ISN pairs that wrap 2^31 and 2^32 mid-transfer. After every event the bytes handed to each application must be a prefix of what the peer wrote, and Finished requires all bytes.",
+         "Trusted: the harness application model and network; bounds: k deviations, transfers of 20..3000 bytes, the listed configurations. ISNs are forced through the public random seed and verified on the wire.", "2/C01"),
+ "C02": ("tcp2", "deviation-bounded exhaustive search; finite-deadline invariant after every poll; bounded-reachability liveness with exact deadlock detection",
+         "Same executions as C01 (interfaces polled only on frame arrival and at poll_at). After every event: a live socket with queued data or an unacknowledged SYN/FIN must make Interface::poll_at return Some. Every run (finite fault prefix, then reliable delivery) must end with all bytes delivered, both applications told Finished and both sockets CLOSED; a state with nothing in flight, no deadline and no enabled application step is reported as deadlock, a 2000-event horizon catches livelock.",
+         "Trusted: harness; liveness is bounded reachability under a fair default continuation, not LTL over infinite runs; bounds as C01.", "2/C02"),
+ "C05": ("tcpsend", "monitor over every segment of every execution of the deviation-bounded tcp2 search",
+         "Every segment either endpoint emits in every explored tcp2 execution is parsed by an independent TCP/IP parser and checked: payload equals the application's bytes for those sequence numbers (also retransmissions), payload <= peer MSS (with the documented clamp) and packet <= MTU, data within the highest right edge any delivered ACK ever gave (1-byte probe at the edge excepted), new data contiguous, FIN only after all data and nothing after it, SYN window unscaled and later windows equal to free space >> negotiated shift.",
+         "Trusted: independent parser (wirecheck), lenient window reading (highest edge ever delivered); peers here are both smoltcp (adversarial-peer sender mode is future work); bounds as C01.", "2/C05"),
+ "C08": ("cksum", "bounded-exhaustive enumeration: checksum routine vs independent RFC 1071 reference; every emitted frame verified; every single/double bit flip of checksummed regions must be dropped",
+         "(a) wire::checksum::data/combine/pseudo_header against an independent reference for every length 0..=1024 (thorough 0..=4096, and 4097..=65535 for basis patterns) x 8 alignments x basis contents incl. one-hot at every position; combine on 4096^2 boundary pairs (thorough: all 2^32). (b) every frame emitted by real interfaces over a scenario suite (ICMP, UDP, TCP, fragments, all payload sizes, all capability settings with tx on) verifies under the independent implementation. (c) for 9 base packets per IP version that provably have an effect, every single-bit (thorough: double-bit) flip whose checksum is independently wrong must leave the SocketSet image unchanged and emit nothing.",
+         "Trusted: independent RFC 1071 reference and offsets-only classifier; content space is basis patterns, not all contents; 6LoWPAN medium not exercised here (see C20).", "2/C08"),
  "C14": ("ring", "explicit-state BFS to fixpoint over abstract states of the real RingBuffer/PacketBuffer vs queue model",
          "Every reachable abstract state (capacity, read position, length[, metadata shapes]) of the real RingBuffer<u32> (cap 0..=8 quick, 0..=24 thorough) and PacketBuffer<u32> (slots 0..=3 x bytes 0..=8 quick, 0..=4 x 0..=12 thorough) is visited; from each, every public operation with every argument 0..=cap+1 (callbacks that accept k or decline) runs on the real code and the queue model plus the complete physical image are compared after each transition - an inductive, exhaustive argument within the capacity bound.",
          "Trusted: queue model; abstraction argument (code generic in T, never inspects elements); Debug image used as hook-free observation of read position/storage; documented-panic arguments excluded.", "2/C14"),
